@@ -1,6 +1,11 @@
 package vsched
 
-import "fmt"
+import (
+	"fmt"
+	"reflect"
+	"runtime"
+	"time"
+)
 
 // Pool backs vsync.Pool: a deterministic LIFO free list plus an ownership
 // tracker. sync.Pool hides a stale or doubly released object behind per-P
@@ -15,6 +20,70 @@ type Pool struct {
 	Name  string
 	Gets  int
 	Puts  int
+	// collected counts objects that were handed out, never released, and have
+	// since become unreachable (only with TrackLive)
+	collected int
+}
+
+// TrackLive makes every pool follow the objects it hands out with a finalizer, so
+// that Reachable() can tell an object the program still holds from one it merely
+// did not bother to give back (which is garbage, not state). Set before the
+// execution starts; used by the memory gauges of C13.
+var TrackLive bool
+
+var poolEpoch int
+
+//go:norace
+func (p *Pool) track(x any) {
+	if !TrackLive || x == nil || reflect.TypeOf(x).Kind() != reflect.Ptr {
+		return
+	}
+	defer func() { recover() }() // not a heap object / finalizer already set: stay with the plain count
+	ep := poolEpoch
+	runtime.SetFinalizer(x, func(any) {
+		if ep == poolEpoch { // objects of an earlier execution do not count in this one
+			p.collected++
+		}
+	})
+}
+
+//go:norace
+func (p *Pool) untrack(x any) {
+	if !TrackLive || x == nil || reflect.TypeOf(x).Kind() != reflect.Ptr {
+		return
+	}
+	defer func() { recover() }()
+	runtime.SetFinalizer(x, nil)
+}
+
+// Reachable is Outstanding minus the objects the garbage collector has proved
+// unreachable. Call SettleGC first.
+//
+//go:norace
+func (p *Pool) Reachable() int { return p.Gets - p.Puts - p.collected }
+
+// SettleGC runs the collector until the finalizers of everything unreachable
+// have run (two consecutive rounds without a change).
+func SettleGC() {
+	sum := func() int {
+		n := 0
+		for _, p := range allPools {
+			n += p.collected
+		}
+		return n
+	}
+	stable := 0
+	for i := 0; i < 40 && stable < 2; i++ {
+		before := sum()
+		runtime.GC()
+		time.Sleep(300 * time.Microsecond)
+		runtime.Gosched()
+		if sum() == before {
+			stable++
+		} else {
+			stable = 0
+		}
+	}
 }
 
 var allPools []*Pool
@@ -31,10 +100,11 @@ var PoolPerGoroutine bool
 
 //go:norace
 func resetPools() {
+	poolEpoch++
 	for _, p := range allPools {
 		p.items = nil
 		p.owner = nil
-		p.Gets, p.Puts = 0, 0
+		p.Gets, p.Puts, p.collected = 0, 0, 0
 	}
 }
 
@@ -64,6 +134,7 @@ func (p *Pool) Get() any {
 				n := len(p.items) - 1
 				p.items[n], p.owner[n] = nil, nil
 				p.items, p.owner = p.items[:n], p.owner[:n]
+				p.track(x)
 				return x
 			}
 		}
@@ -73,6 +144,7 @@ func (p *Pool) Get() any {
 		p.items = p.items[:n-1]
 		p.owner = p.owner[:n-1]
 		raceAcquire(poolRaceAddr(x))
+		p.track(x)
 		return x
 	}
 	if p.New != nil {
@@ -80,6 +152,7 @@ func (p *Pool) Get() any {
 		if p.Name == "" {
 			p.Name = fmt.Sprintf("%T", x)
 		}
+		p.track(x)
 		return x
 	}
 	return nil
@@ -95,6 +168,7 @@ func (p *Pool) Put(x any) {
 		p.Name = fmt.Sprintf("%T", x)
 	}
 	p.Puts++
+	p.untrack(x)
 	if p.has(x) {
 		Event("pool: double release of %T (pool %s) at %s", x, p.Name, callers())
 		return
